@@ -47,6 +47,9 @@ pub enum Stream {
 	/// a click through a reverb at two device rates: the delay between the first reflection in the
 	/// left and in the right channel is a time, not a number of frames
 	Reverb { rates: [u32; 2], ibs: usize },
+	/// rate-history independence: the same scene at rate r2 from the start, and at r1 changing to
+	/// r2 after some silent callbacks; from the change on both must render the same audio
+	History { r1: u32, r2: u32, effects: Vec<EffectSpec>, on_main: bool, ibs: usize, warm: usize, noise_seed: u64 },
 	Orders { ops: Vec<ROp> },
 	Sched { adds: usize, device: Vec<ROp>, switch_prob: f64 },
 	Seconds { rates: Vec<u32>, change_at: f64, change_to: u32, sound_rate: u32, sound_len: usize, playback_rate: f64, clock_tps: f64, tween_secs: f64, delay_secs: f64, ibs: usize },
@@ -65,7 +68,43 @@ fn gen_case(seed: u64, index: u64, tier: Tier) -> Case {
 	let mut rng = Rng::new(seed);
 	let initial_rate = *rng.pick(&RATES);
 	let stale_ok = !known::is_open("C16-stale-rate-on-queued-track");
-	let stream = match if index % 16 == 11 { 9 } else { index % 4 } {
+	let stream = match if index % 16 == 11 {
+		9
+	} else if index % 8 == 5 {
+		8
+	} else {
+		index % 4
+	} {
+		8 => {
+			const HI: [u32; 5] = [44_100, 48_000, 88_200, 96_000, 192_000];
+			let r2 = *rng.pick(&HI);
+			let mut r1 = *rng.pick(&HI);
+			if r1 == r2 {
+				r1 = if r2 == 48_000 { 96_000 } else { 48_000 };
+			}
+			let noise_seed = rng.next_u64();
+			let ibs = *rng.pick(&[16usize, 64, 128]);
+			let warm = rng.urange(1, 4);
+			let on_main = rng.chance(0.3);
+			let mut g = crate::gen::G::new(&mut rng, crate::gen::Tiers { t1: 0.0, t2: 0.0 });
+			let mut effects: Vec<EffectSpec> = (0..g.rng.urange(1, 3)).map(|_| super::c11::fixed_effect(&mut g, 0)).collect();
+			// a delay of less than a frame (one frame of line at every rate) around a filter: the
+			// nested effect must hear about the new rate although the line keeps its length
+			if g.rng.chance(0.25) {
+				effects.push(EffectSpec::Delay {
+					time: 0.000_001,
+					feedback: Val::Fixed(Db(-6.0)),
+					mix: Val::Fixed(MixS(0.5)),
+					feedback_effects: vec![EffectSpec::Filter {
+						mode: FilterModeS::LowPass,
+						cutoff: Val::Fixed(g.rng.frange(300.0, 3000.0)),
+						resonance: Val::Fixed(0.1),
+						mix: Val::Fixed(MixS(1.0)),
+					}],
+				});
+			}
+			Stream::History { r1, r2, effects, on_main, ibs, warm, noise_seed }
+		}
 		9 => {
 			let a = *rng.pick(&RATES);
 			let mut b = *rng.pick(&RATES);
@@ -767,8 +806,102 @@ fn run_reverb(rates: &[u32; 2], ibs: usize) -> CaseResult {
 	res
 }
 
+#[allow(clippy::too_many_arguments)]
+fn run_history(r1: u32, r2: u32, effects: &[EffectSpec], on_main: bool, ibs: usize, warm: usize, noise_seed: u64) -> CaseResult {
+	let mut res = CaseResult::default();
+	let mut trace = Hasher64::new();
+	let mut streams: Vec<Vec<f32>> = vec![];
+	for (wi, start_rate) in [r2, r1].iter().enumerate() {
+		let cfg = WorldConfig {
+			sample_rate: *start_rate,
+			internal_buffer_size: ibs,
+			main_effects: if on_main { effects.to_vec() } else { vec![] },
+			..Default::default()
+		};
+		let Ok(mut w) = World::new(&cfg, None) else { return res };
+		w.exec(&Op::AddTrack {
+			parent: None,
+			spec: TrackSpec {
+				effects: if on_main { vec![] } else { effects.to_vec() },
+				..Default::default()
+			},
+			spatial: None,
+		});
+		for k in 0..warm {
+			let rep = w.callback(ibs + k, 2);
+			if let Some(p) = rep.panic {
+				res.fail(Violation::new("panic", format!("audio-panic: {}", panic_signature(&p)), p));
+				return res;
+			}
+		}
+		if wi == 1 {
+			w.exec(&Op::ChangeRate { hz: r2 });
+		}
+		w.exec(&Op::PlayStatic {
+			track: Some(0),
+			data: DataSpec {
+				len: (r2 / 20) as usize,
+				sample_rate: r2,
+				signal: Signal::Noise { seed: noise_seed, amp: 0.4 },
+			},
+			slice: None,
+			settings: SoundSettingsSpec::default(),
+		});
+		let mut s = vec![];
+		for k in 0..((r2 as usize / 8) / ibs + 2) {
+			let rep = w.callback(ibs + (k % 3), 2);
+			if let Some(p) = rep.panic {
+				res.fail(Violation::new("panic", format!("audio-panic: {}", panic_signature(&p)), format!("world {wi}: {p}")));
+				return res;
+			}
+			s.extend_from_slice(&w.out);
+		}
+		res.frames += w.frames_rendered;
+		res.callbacks += w.callbacks;
+		res.sim_seconds += w.sim_seconds;
+		streams.push(s);
+	}
+	let (a, b) = (&streams[0], &streams[1]);
+	let mut nonsilent = false;
+	for (i, (x, y)) in a.iter().zip(b.iter()).enumerate() {
+		trace.f32(*x);
+		nonsilent |= *x != 0.0;
+		if !((x - y).abs() <= 1e-6 + 1e-4 * x.abs().max(y.abs())) && !(x.is_nan() && y.is_nan()) {
+			res.fail(Violation::new(
+				"seconds",
+				"rendering-depends-on-rate-history",
+				format!(
+					"frame {} channel {}: {x} in the world that ran at {r2} Hz from the start, {y} in the world that ran {warm} silent callbacks at {r1} Hz and was then switched to {r2} Hz; effects {:?} on {}",
+					i / 2,
+					i % 2,
+					effects.iter().map(|e| e.kind_name()).collect::<Vec<_>>(),
+					if on_main { "the main track" } else { "a sub-track" }
+				),
+			));
+			break;
+		}
+	}
+	if res.violation.is_none() {
+		res.hit("rate_history_twins_compared");
+	}
+	res.nontrivial = nonsilent;
+	res.behaviour_sig = {
+		let mut h = Hasher64::new();
+		h.u64(r1 as u64);
+		h.u64(r2 as u64);
+		for e in effects {
+			h.str(e.kind_name());
+		}
+		h.u64(on_main as u64);
+		h.finish()
+	};
+	res.trace_hash = trace.finish();
+	res
+}
+
 pub fn run_case(case: &Case) -> CaseResult {
 	match &case.stream {
+		Stream::History { r1, r2, effects, on_main, ibs, warm, noise_seed } => run_history(*r1, *r2, effects, *on_main, *ibs, *warm, *noise_seed),
 		Stream::Reverb { rates, ibs } => run_reverb(rates, *ibs),
 		Stream::Orders { ops } => run_orders(case, ops),
 		Stream::Sched { adds, device, switch_prob } => run_sched(case, *adds, device, *switch_prob),
@@ -785,7 +918,7 @@ impl Check for C16 {
 		CheckInfo {
 			id: "C16",
 			level: "exploration",
-			rule: "four streams. reverb (1/16): a click through a reverb at two device rates, the delay between the first reflection in the left and in the right channel compared in seconds; orders (1/2): seeded sequences over {add (nested) track with a rate-probe effect, add send track with one, drop a track handle (the track lives on while a track below it is alive), change the device sample rate, callback} from 8 kHz to 192 kHz; sched (1/4): a gameplay task adding (nested) tracks against a device task changing the rate and running callbacks, under seeded random schedules at the yield points between reading the shared sample rate and enqueueing the track and inside on_change_sample_rate; seconds (1/4): one scene described in seconds (finite sound at any source rate and playback rate, clock, volume tween, delay echo, a tone behind a low-pass filter) rendered in three worlds at different device rates, the third changing its rate mid-stream; non-trivial = at least two effect process calls checked / worlds compared; distinct = hash of the per-callback (rate, probes) sequence, of the yield trace, of the scene parameters",
+			rule: "five streams. history (1/8): the same scene (1..3 built-in effects at fixed parameters, optionally a sub-frame delay around a filter) rendered at rate r2 from the start and at r1 switched to r2 after a few silent callbacks - from the switch on both must render the same audio; reverb (1/16): a click through a reverb at two device rates, the delay between the first reflection in the left and in the right channel compared in seconds; orders (1/2): seeded sequences over {add (nested) track with a rate-probe effect, add send track with one, drop a track handle (the track lives on while a track below it is alive), change the device sample rate, callback} from 8 kHz to 192 kHz; sched (1/4): a gameplay task adding (nested) tracks against a device task changing the rate and running callbacks, under seeded random schedules at the yield points between reading the shared sample rate and enqueueing the track and inside on_change_sample_rate; seconds (1/4): one scene described in seconds (finite sound at any source rate and playback rate, clock, volume tween, delay echo, a tone behind a low-pass filter) rendered in three worlds at different device rates, the third changing its rate mid-stream; non-trivial = at least two effect process calls checked / worlds compared; distinct = hash of the per-callback (rate, probes) sequence, of the yield trace, of the scene parameters",
 			assumptions: vec![
 				"seconds-domain comparisons allow two callbacks plus a few frames of slack (events are issued at callback boundaries)".into(),
 				"the delay effect restarts with an empty line when the rate changes; the echo is measured from a click issued after the change".into(),
